@@ -96,6 +96,7 @@ theorem decodeBuckets_enc (l : List (Elem Bytes)) (rest : Bytes) (h : ∀ e ∈ 
     have he := h e (by simp)
     have hl := ih (fun x hx => h x (by simp [hx]))
     have h8 : (beBytes e.idx 8).length = 8 := beBytes_length _ _
+    have h32 : e.hash.length = 32 := he.1
     simp only [List.length_cons, decodeBuckets, List.flatMap_cons]
     have hlen : ¬ (encElem e ++ l.flatMap encElem ++ rest).length < 40 := by
       simp only [List.length_append, encElem_length e he]; omega
@@ -147,5 +148,803 @@ theorem decodeBuckets_spec (n : Nat) (bs : Bytes) (es : List (Elem Bytes)) (rest
         rcases List.mem_cons.1 he with rfl | he
         · exact hok
         · exact h2 e he
+
+/-- Well-formed byte store: 49 slots, at most 49 active, 64-bit indexes, 32-byte hashes in the
+    active slots, inactive slots hold the Go zero value. -/
+def Store.WFBytes (s : Store Bytes) : Prop :=
+  s.buckets.length = numBuckets ∧ s.lenBuckets ≤ numBuckets ∧ s.index < 2 ^ 64 ∧
+  ∀ i e, s.buckets[i]? = some e →
+    (i < s.lenBuckets → e.hash.length = 32 ∧ e.idx < 2 ^ 64) ∧
+    (s.lenBuckets ≤ i → e = ⟨0, zeroHash⟩)
+
+theorem Store.WFBytes.active_ok {s : Store Bytes} (h : s.WFBytes) :
+    ∀ e ∈ s.buckets.take s.lenBuckets, ElemOK e := by
+  intro e he
+  obtain ⟨i, hi⟩ := List.mem_iff_getElem?.1 he
+  rw [List.getElem?_take] at hi
+  split at hi
+  · rename_i hlt
+    exact (h.2.2.2 i e hi).1 hlt
+  · cases hi
+
+theorem Store.WFBytes.take_length {s : Store Bytes} (h : s.WFBytes) :
+    (s.buckets.take s.lenBuckets).length = s.lenBuckets := by
+  rw [List.length_take, h.1]; exact Nat.min_eq_left h.2.1
+
+theorem Store.WFBytes.rebuild {s : Store Bytes} (h : s.WFBytes) :
+    s.buckets.take s.lenBuckets ++
+      List.replicate (numBuckets - (s.buckets.take s.lenBuckets).length) ⟨0, zeroHash⟩
+      = s.buckets := by
+  have hd : s.buckets.drop s.lenBuckets
+      = List.replicate (numBuckets - (s.buckets.take s.lenBuckets).length) ⟨0, zeroHash⟩ := by
+    rw [List.eq_replicate_iff]
+    refine ⟨by rw [List.length_drop, h.take_length, h.1], ?_⟩
+    intro e he
+    obtain ⟨i, hi⟩ := List.mem_iff_getElem?.1 he
+    rw [List.getElem?_drop] at hi
+    exact (h.2.2.2 _ e hi).2 (by omega)
+  rw [← hd, List.take_append_drop]
+
+theorem encode_eq (s : Store Bytes) :
+    s.encode = (s.lenBuckets % 256) ::
+      ((s.buckets.take s.lenBuckets).flatMap encElem ++ beBytes s.index 8) := by
+  simp only [Store.encode, List.cons_append, List.nil_append]
+  rfl
+
+theorem encode_length_wf (s : Store Bytes) (h : s.WFBytes) :
+    s.encode.length = 1 + 40 * s.lenBuckets + 8 := by
+  rw [encode_eq, List.length_cons, List.length_append, flatMap_enc_length _ h.active_ok,
+    h.take_length, beBytes_length]
+  omega
+
+theorem decode_encode_wf (s : Store Bytes) (h : s.WFBytes) : Store.decode s.encode = .ok s := by
+  have hle : s.lenBuckets ≤ 49 := h.2.1
+  have hmod : s.lenBuckets % 256 = s.lenBuckets := Nat.mod_eq_of_lt (by omega)
+  rw [encode_eq, hmod]
+  simp only [Store.decode]
+  have hmin : min s.lenBuckets numBuckets = (s.buckets.take s.lenBuckets).length := by
+    rw [h.take_length]; exact Nat.min_eq_left h.2.1
+  rw [hmin, decodeBuckets_enc _ _ h.active_ok]
+  simp only
+  rw [if_neg (by simp only [numBuckets]; omega), if_neg (by rw [beBytes_length]; omega)]
+  rw [h.rebuild, List.take_of_length_le (by rw [beBytes_length]; omega), beNat_beBytes8 _ h.2.2.1]
+
+theorem decode_wf (bs : Bytes) (s : Store Bytes) (hb : IsBytes bs) (h : Store.decode bs = .ok s) :
+    s.WFBytes := by
+  cases bs with
+  | nil => simp [Store.decode] at h
+  | cons n rest =>
+    simp only [Store.decode] at h
+    have hrest : IsBytes rest := fun x hx => hb x (by simp [hx])
+    cases hd : decodeBuckets (min n numBuckets) rest with
+    | none => simp [hd] at h
+    | some p =>
+      obtain ⟨es, rest'⟩ := p
+      simp only [hd] at h
+      obtain ⟨h1, h2, h3⟩ := decodeBuckets_spec _ _ _ _ hrest hd
+      split at h
+      · split at h <;> cases h
+      · rename_i hn
+        split at h
+        · cases h
+        · rename_i h8
+          cases h
+          have hn' : n ≤ numBuckets := by omega
+          have hlen : es.length = n := by rw [h1]; exact Nat.min_eq_left hn'
+          refine ⟨by simp [hlen]; omega, hn', ?_, ?_⟩
+          · have := beNat_lt (rest'.take 8) (fun x hx => h3 x (List.mem_of_mem_take hx))
+            have e : (256 : Nat) ^ 8 = 2 ^ 64 := by decide
+            have l8 : (rest'.take 8).length = 8 := by simp; omega
+            rw [l8, e] at this
+            exact this
+          · intro i e hi
+            simp only at hi ⊢
+            rw [List.getElem?_append] at hi
+            split at hi
+            · rename_i hlt
+              refine ⟨fun _ => h2 e (List.mem_of_getElem? hi), fun hge => by omega⟩
+            · rename_i hge
+              refine ⟨fun hlt => by omega, fun _ => ?_⟩
+              rw [List.getElem?_replicate] at hi
+              split at hi
+              · cases hi; rfl
+              · cases hi
+
+/-! ## Part 2: characterisation of the acceptance check -/
+
+section Check
+variable {H : Type} [DecidableEq H]
+
+theorem checkBuckets_ok_iff (flip : H → Nat → H) (ne : Elem H) (l : List (Elem H)) (n : Nat) :
+    checkBuckets flip ne l n = .ok () ↔
+      ∀ i, i < n → ∃ b, l[i]? = some b ∧ derive flip ne b.idx = some b := by
+  induction l generalizing n with
+  | nil =>
+    cases n with
+    | zero => simp [checkBuckets]
+    | succ n =>
+      simp only [checkBuckets]
+      constructor
+      · intro h; cases h
+      · intro h
+        obtain ⟨b, hb, _⟩ := h 0 (by omega)
+        simp at hb
+  | cons b bs ih =>
+    cases n with
+    | zero => simp [checkBuckets]
+    | succ n =>
+      simp only [checkBuckets]
+      constructor
+      · intro h
+        cases hd : derive flip ne b.idx with
+        | none => simp [hd] at h
+        | some e =>
+          simp only [hd] at h
+          split at h
+          · rename_i heq
+            intro i hi
+            cases i with
+            | zero => exact ⟨b, by simp, by rw [hd, heq]⟩
+            | succ i =>
+              obtain ⟨b', hb', hd'⟩ := (ih n).1 h i (by omega)
+              exact ⟨b', by simpa using hb', hd'⟩
+          · cases h
+      · intro h
+        obtain ⟨b0, hb0, hd0⟩ := h 0 (by omega)
+        simp only [List.getElem?_cons_zero, Option.some.injEq] at hb0
+        subst hb0
+        rw [hd0]
+        simp only [if_true]
+        apply (ih n).2
+        intro i hi
+        obtain ⟨b', hb', hd'⟩ := h (i + 1) (by omega)
+        exact ⟨b', by simpa using hb', hd'⟩
+
+/-- the store produced by an accepted insertion -/
+def Store.inserted (s : Store H) (h : H) : Store H :=
+  { lenBuckets := if ctz s.index + 1 > s.lenBuckets then ctz s.index + 1 else s.lenBuckets,
+    buckets := s.buckets.set (ctz s.index) ⟨s.index, h⟩,
+    index := (s.index + 2 ^ 64 - 1) % 2 ^ 64 }
+
+/-- the acceptance condition of `AddNextEntry` -/
+def Store.Accepts (flip : H → Nat → H) (s : Store H) (h : H) : Prop :=
+  ctz s.index < s.buckets.length ∧
+  ∀ i, i < ctz s.index →
+    ∃ b, s.buckets[i]? = some b ∧ derive flip ⟨s.index, h⟩ b.idx = some b
+
+theorem addNextEntry_of_accepts (flip : H → Nat → H) (s : Store H) (h : H)
+    (ha : s.Accepts flip h) : s.addNextEntry flip h = .ok (s.inserted h) := by
+  simp only [Store.addNextEntry]
+  rw [(checkBuckets_ok_iff flip _ _ _).2 ha.2]
+  simp only [if_pos ha.1]
+  rfl
+
+theorem accepts_of_addNextEntry (flip : H → Nat → H) (s s' : Store H) (h : H)
+    (hadd : s.addNextEntry flip h = .ok s') : s.Accepts flip h ∧ s' = s.inserted h := by
+  simp only [Store.addNextEntry] at hadd
+  cases hcb : checkBuckets flip ⟨s.index, h⟩ s.buckets (ctz s.index) with
+  | error e => simp [hcb] at hadd
+  | ok u =>
+    simp only [hcb] at hadd
+    split at hadd
+    · rename_i hlt
+      cases hadd
+      exact ⟨⟨hlt, (checkBuckets_ok_iff flip _ _ _).1 hcb⟩, rfl⟩
+    · cases hadd
+
+end Check
+
+/-! ## Part 1: bit arithmetic -/
+
+theorem getBit_lt_two (i p : Nat) : getBit i p < 2 := by unfold getBit; omega
+
+theorem mod_succ_eq (i b : Nat) : i % 2 ^ (b + 1) = i % 2 ^ b + 2 ^ b * getBit i b := by
+  unfold getBit; exact Nat.mod_pow_succ
+
+theorem dvd_step {P a b : Nat} (ha : P ∣ a) (hb : P ∣ b) (h : a < b) : a + P ≤ b := by
+  obtain ⟨x, rfl⟩ := ha
+  obtain ⟨y, rfl⟩ := hb
+  have : x < y := Nat.lt_of_mul_lt_mul_left h
+  calc P * x + P = P * (x + 1) := by rw [Nat.mul_succ]
+    _ ≤ P * y := Nat.mul_le_mul_left _ this
+
+theorem pow_dvd_of_le {c d i : Nat} (h : c ≤ d) (hd : 2 ^ d ∣ i) : 2 ^ c ∣ i :=
+  Nat.dvd_trans (Nat.pow_dvd_pow 2 h) hd
+
+theorem dvd_succ_of_getBit_zero {i z : Nat} (h : 2 ^ z ∣ i) (hb : getBit i z = 0) :
+    2 ^ (z + 1) ∣ i := by
+  apply Nat.dvd_of_mod_eq_zero
+  rw [mod_succ_eq, Nat.mod_eq_zero_of_dvd h, hb]; rfl
+
+theorem ctzFrom_spec (i : Nat) : ∀ fuel z, 2 ^ z ∣ i →
+    2 ^ (ctzFrom i z fuel) ∣ i ∧ ctzFrom i z fuel ≤ z + fuel ∧
+    (ctzFrom i z fuel < z + fuel → getBit i (ctzFrom i z fuel) = 1) := by
+  intro fuel
+  induction fuel with
+  | zero => intro z h; exact ⟨h, Nat.le_refl _, fun h => absurd h (Nat.lt_irrefl _)⟩
+  | succ n ih =>
+    intro z h
+    unfold ctzFrom
+    split
+    · rename_i hb
+      have := getBit_lt_two i z
+      exact ⟨h, by omega, fun _ => by omega⟩
+    · rename_i hb
+      have hb0 : getBit i z = 0 := by simpa using hb
+      obtain ⟨h1, h2, h3⟩ := ih (z + 1) (dvd_succ_of_getBit_zero h hb0)
+      exact ⟨h1, by omega, fun hlt => h3 (by omega)⟩
+
+theorem ctz_spec (i : Nat) :
+    2 ^ ctz i ∣ i ∧ ctz i ≤ 48 ∧ (ctz i < 48 → getBit i (ctz i) = 1) := by
+  have := ctzFrom_spec i maxHeight 0 (by simp)
+  simpa [ctz, maxHeight] using this
+
+theorem getBit_zero_of_dvd {i p c : Nat} (hp : p < c) (h : 2 ^ c ∣ i) : getBit i p = 0 := by
+  have h1 : 2 ^ (p + 1) ∣ i := pow_dvd_of_le (by omega) h
+  have h2 := mod_succ_eq i p
+  rw [Nat.mod_eq_zero_of_dvd h1] at h2
+  have hpos := Nat.two_pow_pos p
+  have := getBit_lt_two i p
+  rcases (show getBit i p = 0 ∨ getBit i p = 1 by omega) with h0 | h1'
+  · exact h0
+  · rw [h1', Nat.mul_one] at h2; omega
+
+theorem ctz_unique {i c : Nat} (hc : c ≤ 48) (hd : 2 ^ c ∣ i) (hb : c < 48 → getBit i c = 1) :
+    ctz i = c := by
+  obtain ⟨h1, h2, h3⟩ := ctz_spec i
+  rcases Nat.lt_trichotomy (ctz i) c with hlt | heq | hgt
+  · have := getBit_zero_of_dvd hlt hd
+    have := h3 (by omega)
+    omega
+  · exact heq
+  · have := getBit_zero_of_dvd hgt h1
+    have := hb (by omega)
+    omega
+
+theorem ctz_of_mod {i b : Nat} (hb : b < 48) (h : i % 2 ^ (b + 1) = 2 ^ b) : ctz i = b := by
+  have h2 := mod_succ_eq i b
+  have hlt : i % 2 ^ b < 2 ^ b := Nat.mod_lt _ (Nat.two_pow_pos b)
+  have := getBit_lt_two i b
+  rcases (show getBit i b = 0 ∨ getBit i b = 1 by omega) with h0 | h1
+  · rw [h0, Nat.mul_zero] at h2; omega
+  · rw [h1, Nat.mul_one] at h2
+    exact ctz_unique (by omega) (Nat.dvd_of_mod_eq_zero (by omega)) (fun _ => h1)
+
+theorem mod_of_ctz {i b : Nat} (hb : b < 48) (h : ctz i = b) : i % 2 ^ (b + 1) = 2 ^ b := by
+  obtain ⟨h1, _, h3⟩ := ctz_spec i
+  rw [h] at h1 h3
+  rw [mod_succ_eq, Nat.mod_eq_zero_of_dvd h1, h3 hb]; simp
+
+theorem ctz_of_dvd48 {i : Nat} (h : 2 ^ 48 ∣ i) : ctz i = 48 :=
+  ctz_unique (Nat.le_refl _) h (fun h => absurd h (Nat.lt_irrefl _))
+
+theorem ctz_zero : ctz 0 = 48 := ctz_of_dvd48 (Nat.dvd_zero _)
+
+theorem getPrefix_le (i p : Nat) : getPrefix i p ≤ i := by unfold getPrefix; omega
+
+theorem getPrefix_eq_mul (i p : Nat) : getPrefix i p = 2 ^ p * (i / 2 ^ p) := by
+  unfold getPrefix
+  have := Nat.div_add_mod i (2 ^ p)
+  omega
+
+theorem getPrefix_dvd (i p : Nat) : 2 ^ p ∣ getPrefix i p := by
+  rw [getPrefix_eq_mul]; exact Nat.dvd_mul_right _ _
+
+theorem getPrefix_of_dvd {i p : Nat} (h : 2 ^ p ∣ i) : getPrefix i p = i := by
+  unfold getPrefix; rw [Nat.mod_eq_zero_of_dvd h]; rfl
+
+theorem getPrefix_zero (i : Nat) : getPrefix i 0 = i := getPrefix_of_dvd (by simp)
+
+theorem getPrefix_succ (i b : Nat) :
+    getPrefix i (b + 1) + 2 ^ b * getBit i b = getPrefix i b := by
+  unfold getPrefix
+  have h1 := mod_succ_eq i b
+  have h2 := Nat.mod_le i (2 ^ (b + 1))
+  omega
+
+theorem getBit_getPrefix {i p q : Nat} (h : p ≤ q) : getBit (getPrefix i p) q = getBit i q := by
+  obtain ⟨d, rfl⟩ := Nat.exists_eq_add_of_le h
+  unfold getBit
+  rw [getPrefix_eq_mul, Nat.pow_add, Nat.mul_div_mul_left _ _ (Nat.two_pow_pos p),
+    Nat.div_div_eq_div_mul]
+
+/-! ### positions / derive -/
+
+theorem positions_succ (w x : Nat) :
+    positions (w + 1) x = if getBit x w = 1 then w :: positions w x else positions w x := by
+  unfold positions
+  rw [List.range_succ, List.reverse_append]
+  simp only [List.reverse_cons, List.reverse_nil, List.nil_append, List.cons_append,
+    List.filter_cons, beq_iff_eq]
+
+theorem positions_nil_of_dvd {a z : Nat} (h : 2 ^ z ∣ a) : ∀ z', z' ≤ z → positions z' a = [] := by
+  intro z'
+  induction z' with
+  | zero => intro _; simp [positions]
+  | succ w ih =>
+    intro hw
+    rw [positions_succ, getBit_zero_of_dvd (by omega) h, ih (by omega)]
+    simp
+
+theorem positions_prefix {a b z : Nat} (h : a = getPrefix b z) :
+    ∀ d, positions (z + d) b = positions (z + d) a ++ positions z b := by
+  intro d
+  induction d with
+  | zero =>
+    have ha : positions z a = [] :=
+      positions_nil_of_dvd (by rw [h]; exact getPrefix_dvd b z) z (Nat.le_refl _)
+    rw [Nat.add_zero, ha]; rfl
+  | succ d ih =>
+    rw [← Nat.add_assoc, positions_succ, positions_succ, ih, h, getBit_getPrefix (by omega)]
+    split <;> simp
+
+section Derive
+variable {H : Type}
+
+/-- the secret for index `i` derived from the root (`i < 2^48`) -/
+def prod (flip : H → Nat → H) (root : H) (i : Nat) : H :=
+  (positions maxHeight i).foldl flip root
+
+theorem derive_eq (flip : H → Nat → H) (e : Elem H) (to : Nat) :
+    derive flip e to =
+      if e.idx = getPrefix to (ctz e.idx) then
+        some ⟨to, (positions (ctz e.idx) to).foldl flip e.hash⟩
+      else none := by
+  unfold derive
+  by_cases h : e.idx = to
+  · have hd := (ctz_spec to).1
+    rw [if_pos h, h, if_pos (getPrefix_of_dvd hd).symm,
+      positions_nil_of_dvd hd _ (Nat.le_refl _)]
+    rfl
+  · rw [if_neg h]
+    by_cases h2 : e.idx = getPrefix to (ctz e.idx)
+    · rw [if_pos h2]; simp only [ne_eq]; rw [if_neg (by simpa using h2)]
+    · rw [if_neg h2]; simp only [ne_eq]; rw [if_pos h2]
+
+/-- (a) derivation composes -/
+theorem prod_compose (flip : H → Nat → H) (root : H) {a b : Nat}
+    (h : a = getPrefix b (ctz a)) :
+    (positions (ctz a) b).foldl flip (prod flip root a) = prod flip root b := by
+  have hz := (ctz_spec a).2.1
+  obtain ⟨d, hd⟩ := Nat.exists_eq_add_of_le hz
+  unfold prod maxHeight
+  rw [hd, positions_prefix h d, List.foldl_append]
+
+theorem derive_prod (flip : H → Nat → H) (root : H) {a b : Nat}
+    (h : a = getPrefix b (ctz a)) :
+    derive flip ⟨a, prod flip root a⟩ b = some ⟨b, prod flip root b⟩ := by
+  rw [derive_eq]
+  simp only
+  rw [if_pos h, prod_compose flip root h]
+
+theorem derive_some_idx (flip : H → Nat → H) {e e' : Elem H} {to : Nat}
+    (h : derive flip e to = some e') : e.idx = getPrefix to (ctz e.idx) := by
+  rw [derive_eq] at h
+  split at h
+  · assumption
+  · cases h
+
+theorem newIndex_lt {v : Nat} (h : v < 2 ^ 48) : newIndex v = startIndex - v := by
+  unfold newIndex startIndex; omega
+
+theorem producerAt_eq (flip : H → Nat → H) (root : H) {v : Nat} (h : v < 2 ^ 48) :
+    producerAt flip root v = some (prod flip root (startIndex - v)) := by
+  unfold producerAt
+  rw [newIndex_lt h]
+  have : (0 : Nat) = getPrefix (startIndex - v) (ctz 0) := by
+    rw [ctz_zero]; unfold getPrefix startIndex
+    rw [Nat.mod_eq_of_lt (by omega)]; omega
+  have hd := derive_prod flip root this
+  have hp : prod flip root 0 = root := by
+    unfold prod
+    rw [positions_nil_of_dvd (Nat.dvd_zero (2 ^ maxHeight)) _ (Nat.le_refl _)]; rfl
+  rw [hp] at hd
+  rw [hd]; rfl
+
+end Derive
+
+/-! ### the honest-store invariant -/
+
+theorem add_mod_of_dvd {Q n P : Nat} (h : Q ∣ n) (hP : P < Q) : (n + P) % Q = P := by
+  obtain ⟨t, rfl⟩ := h
+  rw [Nat.mul_add_mod, Nat.mod_eq_of_lt hP]
+
+theorem two_pow_lt_succ (b : Nat) : 2 ^ b < 2 ^ (b + 1) := by
+  rw [Nat.pow_succ]; have := Nat.two_pow_pos b; omega
+
+section Honest
+variable {H : Type}
+
+/-- Invariant of a store that has received exactly the producer's secrets for the indexes
+    `m ≤ i < 2^48` (i.e. `2^48 - m` insertions).  Bucket `b` holds the smallest received index
+    with exactly `b` trailing zeros. -/
+structure Inv (flip : H → Nat → H) (root : H) (s : Store H) (m : Nat) : Prop where
+  hm : m ≤ 2 ^ 48
+  len : s.buckets.length = numBuckets
+  lenB : s.lenBuckets ≤ numBuckets
+  idx : s.index = (m + 2 ^ 64 - 1) % 2 ^ 64
+  bucket : ∀ b, b < s.lenBuckets → ∃ j, s.buckets[b]? = some ⟨j, prod flip root j⟩ ∧
+    m ≤ j ∧ j < 2 ^ 48 ∧ ctz j = b ∧ ∀ x, m ≤ x → x < j → ctz x ≠ b
+  cover : ∀ i, m ≤ i → i < 2 ^ 48 → ctz i < s.lenBuckets
+
+theorem inv_new (flip : H → Nat → H) (root zero : H) :
+    Inv flip root (Store.new zero) (2 ^ 48) where
+  hm := Nat.le_refl _
+  len := by simp [Store.new]
+  lenB := by simp [Store.new]
+  idx := by simp [Store.new, startIndex]
+  bucket := by intro b hb; simp [Store.new] at hb
+  cover := by intro i h1 h2; omega
+
+theorem inv_index {flip : H → Nat → H} {root : H} {s : Store H} {n : Nat}
+    (inv : Inv flip root s (n + 1)) : s.index = n := by
+  have := inv.hm; rw [inv.idx]; omega
+
+theorem add_pow_le {n c : Nat} (hn : n < 2 ^ 48) (hc : c ≤ 48) (hd : 2 ^ c ∣ n) :
+    n + 2 ^ c ≤ 2 ^ 48 :=
+  dvd_step hd (Nat.pow_dvd_pow 2 hc) hn
+
+/-- in a store that received `n+1 …`, bucket `b < ctz n` is active and holds index `n + 2^b`. -/
+theorem inv_below {flip : H → Nat → H} {root : H} {s : Store H} {n : Nat}
+    (inv : Inv flip root s (n + 1)) {b : Nat} (hb : b < ctz n) :
+    b < s.lenBuckets ∧ s.buckets[b]? = some ⟨n + 2 ^ b, prod flip root (n + 2 ^ b)⟩ ∧
+    n = getPrefix (n + 2 ^ b) (ctz n) := by
+  obtain ⟨hd, hc, _⟩ := ctz_spec n
+  have hn : n < 2 ^ 48 := by have := inv.hm; omega
+  have hP := Nat.two_pow_pos b
+  have hPc : 2 ^ b < 2 ^ ctz n := Nat.pow_lt_pow_right (by omega) hb
+  have hx48 : n + 2 ^ b < 2 ^ 48 := by have := add_pow_le hn hc hd; omega
+  have hd1 : 2 ^ (b + 1) ∣ n := pow_dvd_of_le (by omega) hd
+  have hd0 : 2 ^ b ∣ n := pow_dvd_of_le (by omega) hd
+  have hctz : ctz (n + 2 ^ b) = b :=
+    ctz_of_mod (by omega) (add_mod_of_dvd hd1 (two_pow_lt_succ b))
+  have hact : b < s.lenBuckets := by
+    have := inv.cover (n + 2 ^ b) (by omega) hx48; omega
+  obtain ⟨j, hj, hmj, _, hcj, hmin⟩ := inv.bucket b hact
+  have hjle : j ≤ n + 2 ^ b := by
+    apply Nat.le_of_not_lt
+    intro hlt
+    exact hmin (n + 2 ^ b) (by omega) hlt hctz
+  have hjd : 2 ^ b ∣ j := by have := (ctz_spec j).1; rwa [hcj] at this
+  have hjge : n + 2 ^ b ≤ j := dvd_step hd0 hjd (by omega)
+  have hje : j = n + 2 ^ b := by omega
+  subst hje
+  refine ⟨hact, hj, ?_⟩
+  unfold getPrefix
+  rw [add_mod_of_dvd hd hPc]; omega
+
+theorem inv_accepts {flip : H → Nat → H} {root : H} {s : Store H} {n : Nat}
+    (inv : Inv flip root s (n + 1)) : s.Accepts flip (prod flip root n) := by
+  have hidx := inv_index inv
+  obtain ⟨_, hc, _⟩ := ctz_spec n
+  refine ⟨by rw [hidx, inv.len]; simp only [numBuckets]; omega, ?_⟩
+  rw [hidx]
+  intro b hb
+  obtain ⟨_, hget, hpre⟩ := inv_below inv hb
+  exact ⟨_, hget, derive_prod flip root hpre⟩
+
+theorem inv_inserted {flip : H → Nat → H} {root : H} {s : Store H} {n : Nat}
+    (inv : Inv flip root s (n + 1)) : Inv flip root (s.inserted (prod flip root n)) n := by
+  have hidx := inv_index inv
+  obtain ⟨_, hc, _⟩ := ctz_spec n
+  have hn : n < 2 ^ 48 := by have := inv.hm; omega
+  have hlen := inv.len
+  have hlenB := inv.lenB
+  simp only [numBuckets] at hlen hlenB
+  refine ⟨by omega, ?_, ?_, ?_, ?_, ?_⟩
+  · simp only [Store.inserted, List.length_set]; exact inv.len
+  · simp only [Store.inserted, hidx, numBuckets]; split <;> omega
+  · simp only [Store.inserted, hidx]
+  · intro b hb
+    simp only [Store.inserted, hidx] at hb ⊢
+    by_cases hbc : b = ctz n
+    · subst hbc
+      refine ⟨n, ?_, Nat.le_refl _, hn, rfl, fun x h1 h2 => by omega⟩
+      rw [List.getElem?_set_self (by omega)]
+    · have hbo : b < s.lenBuckets := by
+        by_cases hlt : b < ctz n
+        · exact (inv_below inv hlt).1
+        · split at hb <;> omega
+      obtain ⟨j, hj, hmj, hj48, hcj, hmin⟩ := inv.bucket b hbo
+      refine ⟨j, ?_, by omega, hj48, hcj, ?_⟩
+      · rw [List.getElem?_set_ne (by omega)]; exact hj
+      · intro x h1 h2
+        by_cases hxn : x = n
+        · subst hxn; omega
+        · exact hmin x (by omega) h2
+  · intro i h1 h2
+    simp only [Store.inserted, hidx]
+    by_cases hin : i = n
+    · subst hin; split <;> omega
+    · have := inv.cover i (by omega) h2
+      split <;> omega
+
+/-! ### look-ups in an honest store -/
+
+theorem findSome_unique {α β : Type} {l : List α} {f : α → Option β} {y : β}
+    (h1 : ∀ x ∈ l, f x = none ∨ f x = some y) (h2 : ∃ x ∈ l, f x = some y) :
+    l.findSome? f = some y := by
+  induction l with
+  | nil => obtain ⟨x, hx, _⟩ := h2; cases hx
+  | cons a l ih =>
+    rw [List.findSome?_cons]
+    rcases h1 a (by simp) with hn | hs
+    · rw [hn]
+      apply ih (fun x hx => h1 x (by simp [hx]))
+      obtain ⟨x, hx, hfx⟩ := h2
+      rcases List.mem_cons.1 hx with rfl | hx
+      · rw [hn] at hfx; cases hfx
+      · exact ⟨x, hx, hfx⟩
+    · rw [hs]
+
+theorem mem_active {s : Store H} {e : Elem H} (h : e ∈ s.buckets.take s.lenBuckets) :
+    ∃ b, b < s.lenBuckets ∧ s.buckets[b]? = some e := by
+  obtain ⟨i, hi⟩ := List.mem_iff_getElem?.1 h
+  rw [List.getElem?_take] at hi
+  split at hi
+  · exact ⟨i, by assumption, hi⟩
+  · cases hi
+
+theorem active_mem {s : Store H} {e : Elem H} {b : Nat} (hb : b < s.lenBuckets)
+    (h : s.buckets[b]? = some e) : e ∈ s.buckets.take s.lenBuckets := by
+  apply List.mem_iff_getElem?.2
+  exact ⟨b, by rw [List.getElem?_take, if_pos hb]; exact h⟩
+
+theorem exists_bucket_aux {flip : H → Nat → H} {root : H} {s : Store H} {m i : Nat}
+    (inv : Inv flip root s m) (hmi : m ≤ i) (hi : i < 2 ^ 48) :
+    ∀ b, b ≤ 48 →
+      (∃ b' j, b' < s.lenBuckets ∧ s.buckets[b']? = some ⟨j, prod flip root j⟩ ∧
+        j = getPrefix i (ctz j)) ∨ m ≤ getPrefix i b := by
+  intro b
+  induction b with
+  | zero => intro _; right; rw [getPrefix_zero]; exact hmi
+  | succ b ih =>
+    intro hb
+    rcases ih (by omega) with hl | hr
+    · exact Or.inl hl
+    · have hs := getPrefix_succ i b
+      have := getBit_lt_two i b
+      rcases (show getBit i b = 0 ∨ getBit i b = 1 by omega) with h0 | h1
+      · rw [h0, Nat.mul_zero, Nat.add_zero] at hs
+        right; rw [hs]; exact hr
+      · rw [h1, Nat.mul_one] at hs
+        by_cases hq : m ≤ getPrefix i (b + 1)
+        · exact Or.inr hq
+        · left
+          have hqd : 2 ^ (b + 1) ∣ getPrefix i (b + 1) := getPrefix_dvd _ _
+          have hjm : getPrefix i b % 2 ^ (b + 1) = 2 ^ b := by
+            rw [← hs]; exact add_mod_of_dvd hqd (two_pow_lt_succ b)
+          have hcj : ctz (getPrefix i b) = b := ctz_of_mod (by omega) hjm
+          have hjle := getPrefix_le i b
+          have hact : b < s.lenBuckets := by
+            have := inv.cover _ hr (by omega); omega
+          obtain ⟨j, hj, hmj, _, hcjb, hmin⟩ := inv.bucket b hact
+          have hjle' : j ≤ getPrefix i b := by
+            apply Nat.le_of_not_lt
+            intro hlt
+            exact hmin _ hr hlt hcj
+          have hjd : 2 ^ b ∣ j := by have := (ctz_spec j).1; rwa [hcjb] at this
+          have hjge := dvd_step (pow_dvd_of_le (Nat.le_succ b) hqd) hjd (by omega)
+          have hje : j = getPrefix i b := by omega
+          exact ⟨b, j, hact, hj, by rw [hcjb]; exact hje⟩
+
+/-- (b) every received index is derivable from some active bucket -/
+theorem exists_bucket {flip : H → Nat → H} {root : H} {s : Store H} {m i : Nat}
+    (inv : Inv flip root s m) (hmi : m ≤ i) (hi : i < 2 ^ 48) :
+    ∃ b' j, b' < s.lenBuckets ∧ s.buckets[b']? = some ⟨j, prod flip root j⟩ ∧
+      j = getPrefix i (ctz j) := by
+  rcases exists_bucket_aux inv hmi hi 48 (Nat.le_refl _) with h | h
+  · exact h
+  · have hp : getPrefix i 48 = 0 := by
+      unfold getPrefix; rw [Nat.mod_eq_of_lt hi]; omega
+    have hm0 : m = 0 := by omega
+    subst hm0
+    have hact : 48 < s.lenBuckets := by
+      have := inv.cover 0 (Nat.le_refl _) (by omega); rwa [ctz_zero] at this
+    obtain ⟨j, hj, _, _, hcj, hmin⟩ := inv.bucket 48 hact
+    have hj0 : j = 0 := by
+      apply Nat.eq_zero_of_not_pos
+      intro hpos
+      exact hmin 0 (Nat.le_refl _) hpos ctz_zero
+    subst hj0
+    exact ⟨48, 0, hact, hj, by rw [ctz_zero, hp]⟩
+
+theorem lookUp_received {flip : H → Nat → H} {root : H} {s : Store H} {m v : Nat}
+    (inv : Inv flip root s m) (hv : v < 2 ^ 48) (hmi : m ≤ startIndex - v) :
+    s.lookUp flip v = some (prod flip root (startIndex - v)) := by
+  have hi : startIndex - v < 2 ^ 48 := by unfold startIndex; omega
+  unfold Store.lookUp
+  rw [newIndex_lt hv]
+  apply findSome_unique
+  · intro e he
+    obtain ⟨b, hb, hget⟩ := mem_active he
+    obtain ⟨j, hj, _⟩ := inv.bucket b hb
+    rw [hget] at hj
+    cases hj
+    by_cases hp : j = getPrefix (startIndex - v) (ctz j)
+    · right; rw [derive_prod flip root hp]; rfl
+    · left; rw [derive_eq, if_neg hp]; rfl
+  · obtain ⟨b, j, hb, hget, hp⟩ := exists_bucket inv hmi hi
+    exact ⟨_, active_mem hb hget, by rw [derive_prod flip root hp]; rfl⟩
+
+/-- (c) nothing below the received range is derivable -/
+theorem lookUp_unreceived {flip : H → Nat → H} {root : H} {s : Store H} {m v : Nat}
+    (inv : Inv flip root s m) (hv : v < 2 ^ 48) (hmi : startIndex - v < m) :
+    s.lookUp flip v = none := by
+  unfold Store.lookUp
+  rw [newIndex_lt hv, List.findSome?_eq_none_iff]
+  intro e he
+  obtain ⟨b, hb, hget⟩ := mem_active he
+  obtain ⟨j, hj, hmj, _⟩ := inv.bucket b hb
+  rw [hget] at hj
+  cases hj
+  rw [derive_eq]
+  split
+  · rename_i hp
+    have := getPrefix_le (startIndex - v) (ctz j)
+    simp only at hp
+    omega
+  · rfl
+
+theorem getPrefix_ge {i c : Nat} (hc : c ≤ 48) (hi : 2 ^ 48 ≤ i) : 2 ^ 48 ≤ getPrefix i c := by
+  apply Nat.le_of_not_lt
+  intro hlt
+  have h1 := dvd_step (getPrefix_dvd i c) (Nat.pow_dvd_pow 2 hc) hlt
+  have h2 : i % 2 ^ c < 2 ^ c := Nat.mod_lt _ (Nat.two_pow_pos c)
+  unfold getPrefix at h1 hlt
+  omega
+
+/-- values outside the 2^48 index space are never derivable -/
+theorem lookUp_out_of_range {flip : H → Nat → H} {root : H} {s : Store H} {m v : Nat}
+    (inv : Inv flip root s m) (hv : 2 ^ 48 ≤ v) (hv' : v < 2 ^ 64) :
+    s.lookUp flip v = none := by
+  unfold Store.lookUp
+  have hi : 2 ^ 48 ≤ newIndex v := by unfold newIndex startIndex; omega
+  rw [List.findSome?_eq_none_iff]
+  intro e he
+  obtain ⟨b, hb, hget⟩ := mem_active he
+  obtain ⟨j, hj, _, hj48, _⟩ := inv.bucket b hb
+  rw [hget] at hj
+  cases hj
+  rw [derive_eq]
+  split
+  · rename_i hp
+    have := getPrefix_ge (ctz_spec j).2.1 hi
+    simp only at hp
+    omega
+  · rfl
+
+/-! ### the honest run -/
+
+/-- the producer's first `k` secrets, in release order -/
+def secrets (flip : H → Nat → H) (root : H) (k : Nat) : List H :=
+  (List.range k).map (fun v => prod flip root (startIndex - v))
+
+/-- the store after the first `k` secrets have been inserted -/
+def honestStore (flip : H → Nat → H) (root zero : H) : Nat → Store H
+  | 0 => Store.new zero
+  | k + 1 => (honestStore flip root zero k).inserted (prod flip root (startIndex - k))
+
+theorem secrets_succ (flip : H → Nat → H) (root : H) (k : Nat) :
+    secrets flip root (k + 1) = secrets flip root k ++ [prod flip root (startIndex - k)] := by
+  simp [secrets, List.range_succ]
+
+theorem secrets_take (flip : H → Nat → H) (root : H) {j k : Nat} (h : j ≤ k) :
+    (secrets flip root k).take j = secrets flip root j := by
+  unfold secrets
+  rw [← List.map_take, List.take_range, Nat.min_eq_left h]
+
+theorem secrets_spec (flip : H → Nat → H) (root : H) {k : Nat} (hk : k ≤ 2 ^ 48) :
+    (secrets flip root k).map some = (List.range k).map (producerAt flip root) := by
+  unfold secrets
+  rw [List.map_map]
+  apply List.map_congr_left
+  intro v hv
+  have : v < k := List.mem_range.1 hv
+  simp only [Function.comp]
+  rw [producerAt_eq flip root (by omega)]
+
+theorem secrets_unique (flip : H → Nat → H) (root : H) {k : Nat} (hk : k ≤ 2 ^ 48) {hs : List H}
+    (h : hs.map some = (List.range k).map (producerAt flip root)) : hs = secrets flip root k := by
+  rw [← secrets_spec flip root hk] at h
+  exact (List.map_inj_right (fun x y hxy => Option.some.inj hxy)).1 h
+
+theorem honest_run [DecidableEq H] (flip : H → Nat → H) (root zero : H) :
+    ∀ k, k ≤ 2 ^ 48 →
+      (secrets flip root k).foldlM (fun st h => st.addNextEntry flip h) (Store.new zero)
+        = .ok (honestStore flip root zero k) ∧
+      Inv flip root (honestStore flip root zero k) (2 ^ 48 - k) := by
+  intro k
+  induction k with
+  | zero =>
+    intro _
+    exact ⟨rfl, inv_new flip root zero⟩
+  | succ k ih =>
+    intro hk
+    obtain ⟨hrun, hinv⟩ := ih (by omega)
+    have hm : 2 ^ 48 - k = (startIndex - k) + 1 := by unfold startIndex; omega
+    have hm' : 2 ^ 48 - (k + 1) = startIndex - k := by unfold startIndex; omega
+    rw [hm] at hinv
+    refine ⟨?_, ?_⟩
+    · rw [secrets_succ, List.foldlM_append, hrun]
+      simp only [bind, Except.bind, List.foldlM_cons, List.foldlM_nil]
+      rw [addNextEntry_of_accepts flip _ _ (inv_accepts hinv)]
+      rfl
+    · rw [hm']
+      exact inv_inserted hinv
+
+/-! ### a wrong secret is rejected (injective hash step) -/
+
+theorem foldl_flip_injective {flip : H → Nat → H}
+    (hinj : ∀ p, Function.Injective (fun h => flip h p)) :
+    ∀ (ps : List Nat) (a b : H), ps.foldl flip a = ps.foldl flip b → a = b := by
+  intro ps
+  induction ps with
+  | nil => intro a b h; exact h
+  | cons p ps ih =>
+    intro a b h
+    rw [List.foldl_cons, List.foldl_cons] at h
+    exact hinj p (ih _ _ h)
+
+theorem checkBuckets_mismatch_head [DecidableEq H] (flip : H → Nat → H) (ne b0 e : Elem H)
+    (bs : List (Elem H)) {z : Nat} (hz : 1 ≤ z) (hd : derive flip ne b0.idx = some e)
+    (hne : e ≠ b0) : checkBuckets flip ne (b0 :: bs) z = .error .mismatch := by
+  cases z with
+  | zero => omega
+  | succ c => simp only [checkBuckets, hd, if_neg hne]
+
+theorem inv_rejects [DecidableEq H] {flip : H → Nat → H}
+    (hinj : ∀ p, Function.Injective (fun h => flip h p))
+    {root : H} {s : Store H} {n : Nat} (inv : Inv flip root s (n + 1))
+    (hz : 1 ≤ ctz n) {h : H} (hne : h ≠ prod flip root n) :
+    s.addNextEntry flip h = .error .mismatch := by
+  obtain ⟨_, hget, hpre⟩ := inv_below inv (b := 0) (by omega)
+  have hidx := inv_index inv
+  simp only [Nat.pow_zero] at hget hpre
+  have hderive : derive flip ⟨n, h⟩ (n + 1)
+      = some ⟨n + 1, (positions (ctz n) (n + 1)).foldl flip h⟩ := by
+    rw [derive_eq]; simp only; rw [if_pos hpre]
+  have hne' : (⟨n + 1, (positions (ctz n) (n + 1)).foldl flip h⟩ : Elem H)
+      ≠ ⟨n + 1, prod flip root (n + 1)⟩ := by
+    intro heq
+    rw [Elem.mk.injEq, ← prod_compose flip root hpre] at heq
+    exact hne (foldl_flip_injective hinj _ _ _ heq.2)
+  cases hb : s.buckets with
+  | nil => rw [hb] at hget; simp at hget
+  | cons b0 bs =>
+    rw [hb] at hget
+    simp only [List.getElem?_cons_zero, Option.some.injEq] at hget
+    subst hget
+    simp only [Store.addNextEntry, hidx, hb]
+    rw [checkBuckets_mismatch_head flip _ _ _ bs hz hderive hne']
+
+end Honest
+
+/-! ### insertion preserves byte-level well-formedness -/
+
+theorem addNextEntry_wfBytes (flip : Bytes → Nat → Bytes) (s s' : Store Bytes) (h : Bytes)
+    (hwf : s.WFBytes) (hh : h.length = 32) (hadd : s.addNextEntry flip h = .ok s') :
+    s'.WFBytes := by
+  obtain ⟨⟨hlt, _⟩, rfl⟩ := accepts_of_addNextEntry flip s s' h hadd
+  obtain ⟨h1, h2, h3, h4⟩ := hwf
+  rw [h1] at hlt
+  refine ⟨by simp only [Store.inserted, List.length_set]; exact h1, ?_, ?_, ?_⟩
+  · simp only [Store.inserted]; split <;> omega
+  · simp only [Store.inserted]; omega
+  · intro i e hi
+    simp only [Store.inserted] at hi ⊢
+    by_cases hic : i = ctz s.index
+    · subst hic
+      rw [List.getElem?_set_self (by omega)] at hi
+      cases hi
+      exact ⟨fun _ => ⟨hh, h3⟩, fun hge => by split at hge <;> omega⟩
+    · rw [List.getElem?_set_ne (by omega)] at hi
+      obtain ⟨ha, hb⟩ := h4 i e hi
+      refine ⟨fun hlt' => ?_, fun hge => hb (by split at hge <;> omega)⟩
+      by_cases hlo : i < s.lenBuckets
+      · exact ha hlo
+      · have := hb (by omega)
+        subst this
+        exact ⟨by simp [zeroHash], Nat.two_pow_pos 64⟩
 
 end LndModel.C06
